@@ -38,7 +38,8 @@ ELEM_NAMES = SCALARS + ['pstruct', 'vstruct', 'list_i32', 'set_string', 'map_str
 def fam_list():
     out = []
     for e, n in zip(ELEMS, ELEM_NAMES):
-        out.append(StructDef('Li_' + n, [Field(1, 'default', ('list', e)), Field(2, 'optional', ('set', e))]))
+        out.append(StructDef('Li_' + n, [Field(1, 'default', ('list', e))]))
+        out.append(StructDef('Se_' + n, [Field(2, 'optional', ('set', e))]))
     return out
 
 KEYS = [S(k) for k in ['bool', 'i8', 'i16', 'i32', 'i64', 'double', 'enum', 'string']] + [('struct', LEAF, True)]
